@@ -306,7 +306,7 @@ func mapOpsToScript(mk mapKinds, ops []MapOp) string { return mapOpsToScriptLit(
 // mapOpsToScriptLit: the first lit operations become the entries of the map literal
 func mapOpsToScriptLit(mk mapKinds, ops []MapOp, lit int) string {
 	var b strings.Builder
-	b.WriteString("package main\n\nfunc Main() {\n")
+	b.WriteString("package main\n\nimport \"golang.org/x/exp/maps\"\n\nfunc Main() {\n\t_ = maps.Clone(map[int]int{})\n")
 	// lit < 0: the variable starts as a nil map (reading, len, range and delete are defined on it; it is made just before
 	// the first assignment to an entry)
 	nilStart := lit < 0
@@ -340,6 +340,7 @@ func mapOpsToScriptLit(mk mapKinds, ops []MapOp, lit int) string {
 	}
 	ops = ops[lit:]
 	depth := 0
+	nset := 0
 	var emit func(ops []MapOp, ind string, curVar, itVar string)
 	emit = func(ops []MapOp, ind string, curVar, itVar string) {
 		for _, op := range ops {
@@ -356,11 +357,24 @@ func mapOpsToScriptLit(mk mapKinds, ops []MapOp, lit int) string {
 			}
 			switch op.Op {
 			case "set":
+				// every third top-level insertion happens next to a clone of the map that gets a key of its own right after:
+				// the two maps are independent from the moment of the clone on
+				clone := ""
+				if itVar == "" && mk.Key != "bool" {
+					nset++
+					if nset%3 == 0 {
+						clone = fmt.Sprintf("cl%d", nset)
+						fmt.Fprintf(&b, "%s%s := maps.Clone(m)\n", pre, clone)
+					}
+				}
 				if nilStart {
 					fmt.Fprintf(&b, "%sif m == nil {\n%s\tm = make(map[%s]%s)\n%s}\n", pre, pre, mk.keyType(), mk.valType(), pre)
 				}
 				fmt.Fprintf(&b, "%sm[%s] = %s\n", pre, key, mk.valLit(op.V))
 				fmt.Fprintf(&b, "%sprintln(\"E\", \"set\", %s, %s)\n", pre, key, mk.valLit(op.V))
+				if clone != "" {
+					fmt.Fprintf(&b, "%s%s[%s] = %s\n%s_ = len(%s)\n", pre, clone, mk.keyLit(99), mk.valLit(op.V), pre, clone)
+				}
 			case "del":
 				fmt.Fprintf(&b, "%sdelete(m, %s)\n", pre, key)
 				fmt.Fprintf(&b, "%sprintln(\"E\", \"del\", %s)\n", pre, key)
